@@ -102,8 +102,8 @@ Definition enc_result (r : res graph) : sx :=
   match r with
   | Ok g => SL [SB sym_ok; SL (map enc_vk (g_nodes g)); SL (map (enc_edge (g_nodes g)) (g_edges g)); SI 0; SI 1]
   | Err e =>
-      if N.eqb e EImpossible then SL [SB sym_gerr; SB sym_impossible]
-      else if N.eqb e ETooDeep then SL [SB sym_gerr; SB sym_toodeep]
+      if N.eqb e EImpossible then SL [SB sym_gerr]
+      else if N.eqb e ETooDeep then SL [SB sym_gerr]
       else if N.eqb e (EClientBase + EMissing) then SL [SB sym_missing]
       else SL [SB sym_harderr]
   | Panic _ => SL [SB sym_missing]
